@@ -411,6 +411,8 @@ func TestC09(t *testing.T) {
 				return "local timestamps"
 			case strings.Contains(name, "header file cut") || strings.HasPrefix(name, "illegal header") || strings.HasPrefix(name, "wrong file CRC"):
 				return "rejected inputs"
+			case strings.HasPrefix(name, "twin definition"):
+				return "twin definitions"
 			case name == "generated stream" || name == "accumulating stream" || name == "chain":
 				return name + "s"
 			}
